@@ -53,16 +53,24 @@ def arch():
     return os.uname().machine
 
 
+def make_backends(root):
+    """The fake backends are written ONCE, before any thread starts a process: a script that is still open for writing in
+    a forked child of another thread cannot be executed (ETXTBSY), which made one configuration in ~2000 fail spuriously."""
+    bindir = os.path.join(root, "bin")
+    os.makedirs(bindir, exist_ok=True)
+    for n in ["fake-flag", "fake-env", "fake-cfg", "clang", "fakelli-flag", "fakelli-env"]:
+        path = os.path.join(bindir, n)
+        with open(path, "w") as f:
+            f.write(FAKE)
+        os.chmod(path, 0o755)
+    return bindir
+
+
 def run_config(penne, root, idx, case):
     c = case["cfg"]
     d = os.path.join(root, "c%d" % idx)
     shutil.rmtree(d, ignore_errors=True)
-    os.makedirs(os.path.join(d, "bin"))
-    names = ["fake-flag", "fake-env", "fake-cfg", "clang", "fakelli-flag", "fakelli-env"]
-    for n in names:
-        path = os.path.join(d, "bin", n)
-        open(path, "w").write(FAKE)
-        os.chmod(path, 0o755)
+    os.makedirs(d)
     mods = sources(c)
     for name, text in mods:
         path = os.path.join(d, name)
@@ -82,7 +90,7 @@ def run_config(penne, root, idx, case):
     if c["outdir"]:
         args += ["--out-dir", "outd"]
     env = {k: v for k, v in os.environ.items() if k not in ("PENNE_BACKEND", "PENNE_LLI", "RUST_BACKTRACE", "NO_COLOR")}
-    env["PATH"] = os.path.join(d, "bin") + ":" + env.get("PATH", "")
+    env["PATH"] = os.path.join(root, "bin") + ":" + env.get("PATH", "")
     env["FAKE_LOG"] = os.path.join(d, "backend.log")
     env["RUST_BACKTRACE"] = "0"
     lli = c["sub"] == "run"
@@ -107,8 +115,6 @@ def run_config(penne, root, idx, case):
     obs["backend_stdin_head"] = open(log_path + ".stdin", errors="replace").read()[:200] if os.path.exists(log_path + ".stdin") else ""
     files = {}
     for dp, dn, fn in os.walk(d):
-        if os.path.relpath(dp, d).split(os.sep)[0] == "bin":
-            continue
         for f in fn:
             rel = os.path.relpath(os.path.join(dp, f), d)
             if rel.endswith(".ll"):
@@ -251,6 +257,7 @@ def run(rep, tier, seed, selftest):
     root = os.path.join(common.WORK, "pipeline-cli-%d" % os.getpid())
     shutil.rmtree(root, ignore_errors=True)
     os.makedirs(root)
+    make_backends(root)
     with ThreadPoolExecutor(max_workers=int(pc.THREADS)) as ex:
         observations = list(ex.map(lambda i: run_config(penne, root, i, cases[i]), idx))
     findings = pc.Findings()
@@ -343,6 +350,7 @@ def replay(path):
     penne = pc.build_penne()
     root = os.path.join(common.WORK, "pipeline-cli-replay-%d" % os.getpid())
     os.makedirs(root, exist_ok=True)
+    make_backends(root)
     obs = run_config(penne, root, 0, case)
     shutil.rmtree(root, ignore_errors=True)
     print("argv:   ", " ".join(obs["argv"]))
